@@ -1187,11 +1187,30 @@ package erpc
 // C01: a struct-controller handler works on a controller object taken from the
 // pool for this very invocation and given back afterwards (its embedded context
 // pointer is per-invocation state)
+// ... and it is given back only AFTER the handler method has returned: while the
+// method runs, this invocation holds one more pooled object than at entry
+// (heldAtCall records gets-minus-puts at the moment the method is invoked)
+//@ ghost global heldAtCall int
+//@ ext (reflect.Value).Call in erpc.makeCallHandlersFromStruct$2
+//@   flags libframe
+//@   modifies ghost.heldAtCall
+//@   ghostset ghost.heldAtCall = ghost.poolGets - ghost.poolPuts
+//@ ext (reflect.Value).Call in erpc.makePushHandlersFromStruct$2
+//@   flags libframe
+//@   modifies ghost.heldAtCall
+//@   ghostset ghost.heldAtCall = ghost.poolGets - ghost.poolPuts
 //@ func makeCallHandlersFromStruct$2
 //@   property C01
 //@   flags libframe
 //@   requires ctx != nil && ctxShape(ctx)
 //@   ensures[own-controller-per-invocation] ghost.poolGets == old(ghost.poolGets) + 1 && ghost.poolPuts == old(ghost.poolPuts) + 1
+//@   ensures[controller-held-while-the-method-runs] ghost.heldAtCall == old(ghost.poolGets - ghost.poolPuts) + 1
+//@ func makePushHandlersFromStruct$2
+//@   property C01
+//@   flags libframe
+//@   requires ctx != nil && ctxShape(ctx)
+//@   ensures[own-controller-per-invocation] ghost.poolGets == old(ghost.poolGets) + 1 && ghost.poolPuts == old(ghost.poolPuts) + 1
+//@   ensures[controller-held-while-the-method-runs] ghost.heldAtCall == old(ghost.poolGets - ghost.poolPuts) + 1
 
 // ---- logging: output only (keeps verification conditions small) ------------------
 //@ trusted Printf
